@@ -238,9 +238,9 @@ def run(ctx):
     where = f_lu.where
     loc = f_lu.loc()
 
-    mmax = 5 if ctx.thorough else 4
+    mmax = 6 if ctx.thorough else 5
     shapes = [(m, m) for m in range(1, mmax + 1)]
-    shapes += [(3, 2), (2, 3)] + ([(4, 2), (2, 4), (4, 3), (3, 4)] if ctx.thorough else [])
+    shapes += [(3, 2), (2, 3), (4, 2), (2, 4)] + ([(4, 3), (3, 4), (5, 3), (3, 5)] if ctx.thorough else [])
     ctx.notes["lu_shape_box"] = [list(s) for s in shapes]
     total_seq = 0
     sp = TagSpace()
@@ -428,7 +428,10 @@ def run(ctx):
     it, d = new_interp(ctx)
     for f, args in ((f_lu, [sym_real("r", (2, 2))]), (f_mod, [sym_real("r", (2, 2))]), (f_triu, [sym_real("r", (2, 2))]),
                     (f_tril, [sym_real("r", (2, 2))]), (f_lu, [[[1.0, 2.0], [3.0, 4.0]]])):
-        st, out = run_guarded(lambda: it.run(f, args))
+        try:
+            st, out = run_guarded(lambda: it.run(f, args))
+        except AttributeError as e:      # python-level failure of the interpreted code on a non-array (e.g. list.shape)
+            st, out = "python_error", e
         kindname = "list" if isinstance(args[0], list) else "real ndarray"
         ctx.ob(R_GUARD, f"{f.name} rejects {kindname}", st == "raise" and out.exc_name == "ValueError",
                "non-quaternion input is not rejected with ValueError", where=f.where,
